@@ -19,6 +19,7 @@ thread_local! {
     static LOG: RefCell<Vec<String>> = const { RefCell::new(Vec::new()) };
     static NEXT_ID: Cell<u32> = const { Cell::new(0) };
     static FLAGS: Cell<u64> = const { Cell::new(0) };
+    static CLONE_PANICS: Cell<bool> = const { Cell::new(false) };
 }
 
 fn log(s: String) {
@@ -50,7 +51,8 @@ pub const F_CYCLE_STORED: u32 = 9;
 pub const F_WEAK_IN_VALUE_DROPPED: u32 = 10;
 pub const F_INC_DEC: u32 = 11;
 pub const F_OVER_ALIGNED: u32 = 12;
-pub const NAMES: [&str; 13] = [
+pub const F_CLONE_PANIC: u32 = 13;
+pub const NAMES: [&str; 14] = [
     "value_with_nested_handles_destroyed",
     "weak_observed_after_death",
     "try_unwrap_ok",
@@ -64,6 +66,7 @@ pub const NAMES: [&str; 13] = [
     "weak_inside_destroyed_value",
     "inc_dec_strong_count",
     "over_aligned_payload",
+    "make_mut_with_panicking_clone",
 ];
 
 /// Alignment fillers of the over-aligned payload variants.
@@ -156,6 +159,10 @@ impl<F: Fam> Drop for Val<F> {
 
 impl<F: Fam> Clone for Val<F> {
     fn clone(&self) -> Self {
+        if CLONE_PANICS.with(|c| c.get()) {
+            log(format!("clone of {} panics", self.id));
+            std::panic::panic_any(crate::interp::Injected);
+        }
         let v = Val::fresh();
         log(format!("clone {} -> {}", self.id, v.id));
         for h in self.strong.borrow().iter() {
@@ -372,6 +379,8 @@ pub enum POp {
     TryUnwrap(u16, bool),
     GetMut(u16),
     MakeMut(u16),
+    /// make_mut while the payload's Clone panics (caught by the program)
+    MakeMutPanic(u16),
     IntoRaw(u16),
     FromRaw(u16),
     Inc(u16),
@@ -579,6 +588,30 @@ fn step<F: Fam>(s: &mut State<F>, op: &POp, i: usize) {
             }
             s.obs.push(format!("{}: make_mut id={} moved={} counts={}/{}", i, id, moved, F::strong_count(&s.roots[k]), F::weak_count(&s.roots[k])));
         }
+        POp::MakeMutPanic(h) => {
+            let k = root!(h);
+            let before = F::as_ptr(&s.roots[k]);
+            CLONE_PANICS.with(|c| c.set(true));
+            let r = std::panic::catch_unwind(std::panic::AssertUnwindSafe(|| F::make_mut_id(&mut s.roots[k])));
+            CLONE_PANICS.with(|c| c.set(false));
+            let res = match r {
+                Ok(id) => format!("Ok({})", id),
+                Err(e) => {
+                    std::mem::forget(e);
+                    flag(F_CLONE_PANIC);
+                    "panicked".to_string()
+                }
+            };
+            s.obs.push(format!(
+                "{}: make_mut with panicking Clone -> {} same_alloc={} id={} counts={}/{}",
+                i,
+                res,
+                before == F::as_ptr(&s.roots[k]),
+                F::get(&s.roots[k]).id,
+                F::strong_count(&s.roots[k]),
+                F::weak_count(&s.roots[k])
+            ));
+        }
         POp::IntoRaw(h) => {
             let k = root!(h);
             let r = s.roots.remove(k);
@@ -711,6 +744,7 @@ fn pop_strategy() -> BoxedStrategy<POp> {
         5 => (s(), any::<bool>()).prop_map(|(a, b)| POp::TryUnwrap(a, b)),
         3 => s().prop_map(POp::GetMut),
         5 => s().prop_map(POp::MakeMut),
+        2 => s().prop_map(POp::MakeMutPanic),
         3 => s().prop_map(POp::IntoRaw),
         3 => s().prop_map(POp::FromRaw),
         1 => s().prop_map(POp::Inc),
